@@ -401,6 +401,11 @@ class Lexer:
 
         if match:
             text = match.group(1)
+            if not text and match.end() == match.start():
+                # nothing was consumed, which is the case for a "</%"
+                # that is not a closing tag; match_reg() has stepped
+                # over one character, which is plain text
+                text = self.text[match.start() : self.match_position]
             if text:
                 self.append_node(parsetree.Text, text)
             return True
